@@ -11,6 +11,10 @@ Proof. unfold has. destruct (m !! n); split; intros H; try done; try (by eexists
 Lemma has_false (m : gmap name tracker) n : has m n = false <-> m !! n = None.
 Proof. unfold has. destruct (m !! n); split; intros H; done. Qed.
 
+Lemma vstep_cases E s o s' r :
+  vstep E s o = (s', r) -> s' = s \/ (valid E o = true /\ step E s o = (s', r)).
+Proof. unfold vstep. destruct (valid E o); [by right|intros [= <- _]; by left]. Qed.
+
 Lemma balof_credit b a z c :
   balof (credit b a z) c = if decide (c = a) then balof b a + z else balof b c.
 Proof.
@@ -345,7 +349,8 @@ Qed.
 Theorem supply_run E ops : forall s, supply_ok E s -> supply_guarded E s ops -> supply_ok E (run E s ops).
 Proof.
   induction ops as [|o r IH]; intros s Hok Hg; [done|]. simpl in *. destruct Hg as [Htr Hg].
-  apply IH; [|done]. destruct (step E s o) as [s' out] eqn:Hstep. simpl. by eapply supply_step.
+  apply IH; [|done]. destruct (vstep E s o) as [s' out] eqn:Hstep. simpl.
+  apply vstep_cases in Hstep as [->|[_ Hstep]]; [done|]. by eapply supply_step.
 Qed.
 
 (* ---------- the shape of one block-end iteration ---------- *)
@@ -448,7 +453,7 @@ Qed.
 Lemma mint_inv_run E ops : forall s, mint_inv s -> mint_inv (run E s ops).
 Proof.
   induction ops as [|o r IH]; intros s Hinv; [done|]. simpl. apply IH.
-  destruct (step E s o) as [s' out] eqn:Hstep. simpl. by eapply mint_inv_step.
+  destruct (vstep E s o) as [s' out] eqn:Hstep. simpl. apply vstep_cases in Hstep as [->|[_ Hstep]]; [done|]. by eapply mint_inv_step.
 Qed.
 
 Definition mint_once (s : state) : Prop := mint_inv s /\ NoDup (minted_names (log s)).
@@ -471,7 +476,7 @@ Theorem mint_at_most_once E ops b : NoDup (minted_names (log (run E (init b) ops
 Proof.
   assert (H : forall ops s, mint_once s -> mint_once (run E s ops)).
   { clear ops. induction ops as [|o r IH]; intros s Hs; [done|]. simpl. apply IH.
-    destruct (step E s o) as [s' out] eqn:Hstep. simpl. by eapply mint_once_step. }
+    destruct (vstep E s o) as [s' out] eqn:Hstep. simpl. apply vstep_cases in Hstep as [->|[_ Hstep]]; [done|]. by eapply mint_once_step. }
   apply H. split; [intros n Hn; simpl in Hn; by apply elem_of_nil in Hn|simpl; constructor].
 Qed.
 
@@ -543,7 +548,7 @@ Theorem unique_name E ops b : stores_disjoint (run E (init b) ops).
 Proof.
   assert (H : forall ops s, stores_disjoint s -> stores_disjoint (run E s ops)).
   { clear ops. induction ops as [|o r IH]; intros s Hs; [done|]. simpl. apply IH.
-    destruct (step E s o) as [s' out] eqn:Hstep. simpl. by eapply disjoint_step. }
+    destruct (vstep E s o) as [s' out] eqn:Hstep. simpl. apply vstep_cases in Hstep as [->|[_ Hstep]]; [done|]. by eapply disjoint_step. }
   apply H. split; intros n [? Hs]; simpl in Hs; by rewrite lookup_empty in Hs.
 Qed.
 
@@ -644,7 +649,7 @@ Theorem refund_at_most_once E ops b : NoDup (refunded_names (log (run E (init b)
 Proof.
   assert (H : forall ops s, refund_once s -> refund_once (run E s ops)).
   { clear ops. induction ops as [|o r IH]; intros s Hs; [done|]. simpl. apply IH.
-    destruct (step E s o) as [s' out] eqn:Hstep. simpl. by eapply refund_once_step. }
+    destruct (vstep E s o) as [s' out] eqn:Hstep. simpl. apply vstep_cases in Hstep as [->|[_ Hstep]]; [done|]. by eapply refund_once_step. }
   apply H. split; [intros n Hn; simpl in Hn; by apply elem_of_nil in Hn|simpl; constructor].
 Qed.
 
@@ -708,15 +713,79 @@ Proof.
 Qed.
 
 
-(* ---------- ERC-20 lock (store effect): safe only when the name is in no store ---------- *)
+(* ---------- ERC-20 lock (store effect, repaired rule): one tracker per name is kept ---------- *)
 
-Theorem erc_lock_partial E okf s a x s' r :
-  trig_erc_relock E s x = false -> stores_disjoint s -> do_lock_erc E okf s a x = (s', r) -> stores_disjoint s'.
+Theorem erc_lock_unique E okf s a x s' r :
+  stores_disjoint s -> do_lock_erc E okf s a x = (s', r) -> stores_disjoint s'.
 Proof.
-  unfold trig_erc_relock, do_lock_erc. intros Htr [D1 D2].
-  apply orb_false_iff in Htr as [Htr Hf]. apply orb_false_iff in Htr as [Ho Hp].
-  apply has_false in Ho, Hp, Hf.
-  destruct (negb (okf x)); intros [= <- _]; [by split|]. split; simpl; [|done].
-  intros n0 Hs. destruct (decide (n0 = x_name (e_tx E x))) as [->|Hne]; [done|].
-  rewrite lookup_insert_ne in Hs by done. by apply D1.
+  unfold do_lock_erc. intros Hd. destruct (negb (okf x)); [intros [= <- _]; done|].
+  destruct (has (ongoing s) _) eqn:Ho; simpl; [intros [= <- _]; done|].
+  destruct (has (passed s) _) eqn:Hp; simpl; [intros [= <- _]; done|].
+  intros [= <- _]. apply has_false in Ho, Hp. destruct Hd as [D1 D2]. split; simpl.
+  - intros n0 Hs. destruct (decide (n0 = x_name (e_tx E x))) as [->|Hne]; [by rewrite lookup_delete|].
+    rewrite lookup_insert_ne in Hs by done. rewrite lookup_delete_ne by done. by apply D1.
+  - intros n0 Hs. destruct (decide (n0 = x_name (e_tx E x))) as [->|Hne]; [by rewrite lookup_delete|].
+    rewrite lookup_delete_ne by done. by apply D2.
+Qed.
+
+(* an ERC-20 lock never touches a tracker that is ongoing or passed *)
+Theorem erc_lock_refuses E okf s a x :
+  has (ongoing s) (x_name (e_tx E x)) || has (passed s) (x_name (e_tx E x)) = true ->
+  do_lock_erc E okf s a x = (s, Fail).
+Proof. unfold do_lock_erc. intros ->. by destruct (negb (okf x)). Qed.
+
+(* ---------- the supply counter, full statement ---------- *)
+
+Lemma owners_step E s o s' r :
+  e_key E (e_supply E) = false -> owners_not_supply E s -> valid E o = true -> step E s o = (s', r) ->
+  owners_not_supply E s'.
+Proof.
+  intros Hk Hown Hv. destruct o as [snd x|snd x|n l v idx b|f t0 amt|nl names]; simpl in *.
+  - unfold do_lock. repeat case_match; intros [= <- _]; try done.
+    intros m t. simpl. destruct (decide (m = x_name (e_tx E x))) as [->|Hne].
+    + rewrite lookup_insert. intros [= <-]. simpl. intros ->. congruence.
+    + rewrite lookup_insert_ne by done. apply Hown.
+  - unfold do_redeem. repeat case_match; intros [= <- _]; try done.
+    intros m t. simpl. destruct (decide (m = x_name (e_tx E x))) as [->|Hne].
+    + rewrite lookup_insert. intros [= <-]. simpl. intros ->. congruence.
+    + rewrite lookup_insert_ne by done. apply Hown.
+  - intros Hstep. apply report_cases in Hstep as [->|(t & t' & Ht & _ & _ & Hav & _ & Hsh)]; [done|].
+    apply add_vote_fields in Hav as (_ & _ & _ & _ & _ & Ho & _).
+    assert (H : forall X, t_owner X = t_owner t' -> forall m t1, <[n := X]> (ongoing s) !! m = Some t1 -> t_owner t1 <> e_supply E).
+    { intros X HX m t1. destruct (decide (m = n)) as [->|Hne].
+      - rewrite lookup_insert. intros [= <-]. rewrite HX, Ho. by eapply Hown.
+      - rewrite lookup_insert_ne by done. apply Hown. }
+    inversion Hsh; subst; intros m t1; simpl; by apply H.
+  - unfold do_transfer. repeat case_match; intros [= <- _]; done.
+  - intros Hstep m t1 Ht1. destruct (end_block_back _ _ _ _ _ _ _ Hstep Ht1) as (t & Ht & (_ & _ & _ & _ & Ho)).
+    rewrite Ho. by eapply Hown.
+Qed.
+
+Definition supply_inv (E : env) (s : state) : Prop := supply_ok E s /\ owners_not_supply E s.
+
+Theorem supply_full_step E s o s' r :
+  e_key E (e_supply E) = false -> e_len20 E (e_supply E) = false ->
+  supply_inv E s -> vstep E s o = (s', r) -> supply_inv E s'.
+Proof.
+  intros Hk Hl [Hok Hown] Hstep. apply vstep_cases in Hstep as [->|[Hv Hstep]]; [done|].
+  split; [|by eapply owners_step].
+  eapply supply_step; [done| |exact Hstep].
+  destruct o as [snd x|snd x|n l v idx b|f t0 amt|nl names]; simpl in *; try done.
+  - destruct (N.eqb_spec snd (e_supply E)) as [->|]; [congruence|done].
+  - destruct (N.eqb_spec snd (e_supply E)) as [->|]; [congruence|done].
+  - destruct (ongoing s !! n) as [t|] eqn:Ht; [|done]. apply N.eqb_neq. by eapply Hown.
+  - apply andb_true_iff in Hv as [Hv Ht]. apply andb_true_iff in Hv as [Hv Hf]. apply andb_true_iff in Hv as [Hkf _].
+    destruct (N.eqb_spec f (e_supply E)) as [->|]; [congruence|].
+    destruct (N.eqb_spec t0 (e_supply E)) as [->|]; [congruence|done].
+Qed.
+
+Theorem supply_always E ops b :
+  e_key E (e_supply E) = false -> e_len20 E (e_supply E) = false ->
+  tot b = 2 * balof b (e_supply E) -> supply_ok E (run E (init b) ops).
+Proof.
+  intros Hk Hl Hb.
+  assert (H : forall ops s, supply_inv E s -> supply_inv E (run E s ops)).
+  { clear ops. induction ops as [|o r IH]; intros s Hs; [done|]. simpl. apply IH.
+    destruct (vstep E s o) as [s' out] eqn:Hstep. simpl. by eapply supply_full_step. }
+  apply H. split; [done|]. intros n t Ht. simpl in Ht. by rewrite lookup_empty in Ht.
 Qed.
